@@ -12,6 +12,9 @@ CHECKS = {
  "C08": dict(engine="netsim", design="5/C08", category="exploration",
    text="The real worker receives seeded command histories (every mutating verb valid/invalid/duplicate/unknown-target from the configuration grammar, plus Status, queries, metrics configuration and per-IP limits) from the scripted master, back to back or with barriers, with the command stream fragmented at seeded byte quanta; the same requests are applied to a master-side ConfigState that forwards what it accepted (or everything). Oracles: exactly one final answer per id and no PROCESSING after it, no invented id, no garbage on the channel, no panic; when the worker accepted all it was sent, QueryClustersHashes and QueryClusterById for every cluster equal the master-side state, and every listener address mentioned is probed: sozu accept()s a simulated connection iff the master's view has the listener active.",
    technique="deterministic simulation (real worker event loop, scripted master with seeded fragmentation) against a master-side reference ConfigState; per-id history oracle"),
+ "C18": dict(engine="netsim", design="5/C18", category="exploration",
+   text="Real worker with 1-3 concurrent TCP sessions, each on its own TCP listener (IPv4/IPv6), cluster and backend, in the four PROXY-protocol modes (none / send / expect / relay); both peers stream position-keyed data (to 300 kB quick, 3 MB thorough, biased to buffer boundaries) under quanta down to one byte, pauses, read holds, small SO_SNDBUF, epoll truncation/permutation, preemption and injected short writes/EAGAIN, with seeded close choreography (close after confirmed delivery, FIN right behind the data, half-close from either or both sides, reset). 26 PROXY-v2 header shapes (families, TLV tails to 300 bytes, malformed, v1 text, truncated+FIN) with seeded fragmentation; every shape x byte position x {expect, relay} is enumerated in the thorough tier. Oracle: two independent ordered byte pipes (byte-exact, EOF only after all bytes, FIN closes only its direction); send mode: exactly one header accepted by an independent strict decoder naming the client's source and the listener; relay: verbatim once; expect: consumed; illegal header: nothing reaches the backend and the session closes; bounded virtual time.",
+   technique="deterministic simulation (real worker, scripted TCP peers, independent PROXY-v2 decoder) with fault enumeration over header split positions"),
  "C10": dict(engine="netsim", design="5/C10", category="exploration",
    text="Two plan families. codec: listener sets 0..200 of every textual address shape sent with the real send_listeners and read back with the real receive_listeners over a real unix socket pair, each returned fd checked against its address, with an fd-table audit. handover: two real workers (two threads under a baton scheduler that decides who runs) and a scripted master replaying ReturnListenSockets -> receive -> boot successor -> SoftStop/activate at seeded moments relative to client traffic; oracles: every listener returns bound to its address, every connect succeeds and every request in flight completes (C01 oracle), the old worker accepts nothing after acknowledging the stop, acknowledges exactly once and exits.",
    technique="deterministic simulation of two real worker event loops + scripted master with seeded hand-over timing; codec round-trip over generated listener sets"),
